@@ -210,4 +210,15 @@ def run(ctx):
     ctx.oblige('runtime oracle: resolution and validation return a verdict on %d schemas (no panic, crash, hang)' % len(cases), 'oracle', bad == 0)
     for c in cases[:2]:
         ctx.sample(dict(schema=sx.unS(c.split(' ')[4]).decode('utf-8', 'replace')[:300], go=go.get(lib.case_id(c))))
+    # probe for the known finding F48 (the error text of an unguarded tag access doubles with every nested constant conditional in the key): the
+    # signature is the growth between two small depths, so the line disappears when the printer is repaired and nothing expensive is ever run
+    pr = lib.run_go(['(case g10 gettag-message 10)', '(case g14 gettag-message 14)'], 'f48', ctx.workdir)
+    try:
+        l10, l14 = int(sx.parse(pr['g10'])[1]), int(sx.parse(pr['g14'])[1])
+    except Exception:
+        l10 = l14 = None
+        ctx.violation('the probe for F48 did not run: %s' % str(pr)[:300], dict(kind='probe', go=str(pr)), found_input=False)
+    if l10 and l14 and l14 > 12 * l10:
+        ctx.known('F48', 'Validator.Policy: the error text for getTag(<k nested constant conditionals>) doubles with k (%d bytes at k=10, %d at k=14): no verdict for k around 30' % (l10, l14))
+    ctx.extra['f48_probe'] = dict(len10=l10, len14=l14)
     lib.epilogue(ctx)
